@@ -43,7 +43,11 @@ def run(ctx) -> None:
     ctx.rule("C14.shared", "T8: shared sampler state is never modified in place by a chain", floor=1)
     ctx.rule("C14.nonedefault", "T5: item lists / process counts are defaulted only when None", floor=4)
     fa.check_keyed(ctx, "C14.keyed", [fa.FVA, ("cobra.flux_analysis.deletion", "_multi_deletion"), ("cobra.sampling.optgp", "OptGPSampler.sample")])
-    fa.check_fva_step(ctx, "C14.residue")
+    fa.check_fva_step(ctx, "C14.residue", covered_by="C05.formulation")
+    from . import fvaform
+
+    ctx.rule("C05.formulation", "formulation: every FVA step optimises one reaction with the previous coefficients reset (shared with C05)", floor=7)
+    ctx.guard(fvaform.check_fva_formulation, ctx, "C05.formulation")
     # deletion workers: reuse the scope clause under this rule id
     before = len(ctx.instances)
     c06.check_scope(ctx)
